@@ -42,6 +42,8 @@ def cases(tier, seed):
                 if name in HEAVY and not th:
                     c['opts'] = {'max_paths': 250}
                 cs.append(c)
+                if name not in HEAVY and d <= 2 and name not in ('reduce_dims', 'reduce_dims_exclude'):
+                    cs.append({'scen': 'wf_step', 's': dict(s, then_set_core=True)})
     return cs
 
 
@@ -52,7 +54,7 @@ def opts(tier):
 
 def sig(case, label):
     s = case['s']
-    return 'wf_step:%s:%s:%s' % (s['op'], 'ttm' if s.get('ttm') else 'tt', label)
+    return 'wf_step:%s:%s%s:%s' % (s['op'], 'ttm' if s.get('ttm') else 'tt', ':then_set_core' if s.get('then_set_core') else '', label)
 
 
 def meta(tier):
